@@ -61,6 +61,7 @@
 #include <boost/msm/front/functor_row.hpp>
 #include <boost/msm/front/internal_row.hpp>
 #include <boost/msm/front/completion_event.hpp>
+#include <boost/msm/front/operator.hpp>
 
 namespace msm = boost::msm; namespace mpl = boost::mpl;
 using msm::front::Row; using msm::front::Internal; using msm::front::none; using msm::front::Defer;
